@@ -157,17 +157,23 @@ def value_of(s: Sig, data: bytes) -> Any:
 
 
 def decode(m: Msg, data: bytes) -> Dict[str, Any]:
-    """Raw (unscaled) values of every signal that is active for the frame's multiplexer value."""
-    out: Dict[str, Any] = {}
-    muxval: Dict[str, int] = {}
-    for s in m.signals:
-        if s.is_multiplexer:
-            muxval[s.name] = raw_of(s, data)
-    for s in m.signals:
+    """Raw (unscaled) values of every signal that is present in the frame: a multiplexed signal is present when its
+    selector is present and holds one of the signal's multiplexer ids (chains of selectors are followed)."""
+    plain_muxers = [s.name for s in m.signals if s.is_multiplexer and s.mux_ids is None]
+    by_name = {s.name: s for s in m.signals}
+    memo: Dict[str, bool] = {}
+
+    def present(s: Sig, depth: int = 0) -> bool:
+        if s.name in memo:
+            return memo[s.name]
         ids = s.mux_ids
-        if ids is not None and not (s.is_multiplexer and s.mux_role == "M"):
-            sel = s.mux_signal or (next(iter(muxval)) if muxval else None)
-            if sel is None or muxval.get(sel) not in ids:
-                continue
-        out[s.name] = value_of(s, data)
-    return out
+        if ids is None or depth > len(m.signals):
+            memo[s.name] = True
+            return True
+        sel_name = s.mux_signal or (plain_muxers[0] if plain_muxers else None)
+        sel = by_name.get(sel_name) if sel_name else None
+        ok = sel is not None and sel.name != s.name and present(sel, depth + 1) and raw_of(sel, data) in ids
+        memo[s.name] = ok
+        return ok
+
+    return {s.name: value_of(s, data) for s in m.signals if present(s)}
